@@ -133,6 +133,15 @@ def run_ops(rec, ops, lexres, paths, ilifiles, final_only=False):
                 rec.call('wn.ilis(status)')
                 if got != want:
                     rec.violation('ilis-status-filter', f'wn.ilis(status={st!r}) = {got}, model {want}')
+            # ... and the proposed ones: one per synset declared with ili="in", never touched by an index file
+            want_p = sorted(str(((ss.get('ili_definition') or {}).get('text'))) for inst in m.lex.values()
+                            for ss in inst.doc.get('synsets', []) if ss.get('ili') == 'in')
+            got_p = wn.ilis(status='proposed')
+            rec.call('wn.ilis(proposed)')
+            rec.event('ilis.proposed.compared')
+            if sorted(str(x.definition()) for x in got_p) != want_p or any(x.id is not None or x.status != 'proposed' for x in got_p):
+                rec.violation('ilis-status-filter', f"wn.ilis(status='proposed') = {[(x.id, x.status, x.definition()) for x in got_p]}, "
+                              f'model definitions {want_p}')
             if m.lex:
                 for i in sorted(used)[:4]:
                     x = wn.ili(i)
